@@ -42,6 +42,7 @@ RowForms == {"rowsub"}           \* (b, c) = (SELECT x, y ...): only in SET list
 
 (* source forms: how a row source is named in a FROM-like position           *)
 SrcForms == {"table", "alias", "not_indexed", "subq", "view", "cte_ref"}
+TerminalForms == {"table", "alias", "not_indexed", "view"}   \* name a relation directly: nothing can be planted below
 CompoundForms == {"union", "union_all", "intersect", "except"}
 CoreForms == {"core", "cte_ref"}
 
@@ -90,12 +91,19 @@ FormsAt(k, p, full) ==
 
 PlantsOf(k, full) == UNION {{[pos |-> p, form |-> f] : f \in FormsAt(k, p, full)} : p \in PosOf(k)}
 
+(* SQLite never evaluates the result list or the ORDER BY of a sub-select that  *)
+(* is only tested for existence or flattened into its parent (measured with    *)
+(* EXPLAIN: the level-2 table is not opened), so such a statement does not     *)
+(* read it and nothing can be demanded: these chains are left out              *)
+Dead(x, y) == x.form \in {"exists", "subq", "cte_ref"} /\ y.pos \in {"sel_list", "order_by"}
+
 (* chains: depth 1 uses every form; depth 2 uses the basic forms on both     *)
 (* levels (the walk below a reached sub-select is generic)                   *)
 Chains(k) ==
   {<<x>> : x \in PlantsOf(k, TRUE)}
   \cup (IF MaxDepth >= 2
-          THEN {<<x, y>> : x \in {z \in PlantsOf(k, FALSE) : z.form # "view"}, y \in PlantsOf("select", FALSE)}
+          THEN {c \in {<<x, y>> : x \in {z \in PlantsOf(k, FALSE) : z.form \notin TerminalForms}, y \in PlantsOf("select", FALSE)} :
+                  ~Dead(c[1], c[2])}
           ELSE {})
 
 PlainVariants(k) ==
